@@ -14,7 +14,9 @@ RULE = ('complete product: scope_types in {none} + all 15 ordered non-empty '
         'enforce_scope on/off x do_raise on/off x check result allow/deny x '
         'policy-file override with the opposite check or none x rule by name '
         'or as a check object carrying scope_types x credentials as dict / '
-        'RequestContext / to_policy_values(); case = one row; non-trivial = '
+        'RequestContext / to_policy_values(); plus two-call sequences on one '
+        'enforcer (check objects that print alike with different scope types; '
+        'enforce_scope switched between calls); case = one row; non-trivial = '
         'scope types declared.')
 ASSUMPTIONS = ['R-scope reference model below',
                'RequestContext cannot carry the legacy `system` key, so that '
@@ -110,9 +112,79 @@ def run(job, seed):
                             rule = 'p'
                         _rows(acc, P, enf, rule, how, st, enforce_scope,
                               check_allows, override, eff_role)
+        _sequences(acc, P, _parser, w, st)
     finally:
         w.destroy()
     return acc.result()
+
+
+def _sequences(acc, P, _parser, w, st):
+    """Two calls on ONE enforcer: (a) check objects that print alike but
+    carry different scope types; (b) enforce_scope switched between the
+    calls.  Each call must be judged on its own."""
+    w.write('policy.yaml', '{}\n')
+    conf = world.new_conf(w.root, enforce_scope=True, policy_dirs=[])
+    for st2 in all_scope_types():
+        for has_sys, has_dom in ((True, False), (False, True), (False, False)):
+            enf = P.Enforcer(conf)
+            enf.register_default(P.RuleDefault(
+                'p', '@', scope_types=list(st) if st else None))
+            enf.load_rules()
+            for how in ('object', 'name'):
+                outs = []
+                for types in ((st, st2) if how == 'object' else (st, st)):
+                    creds = make_creds('dict', has_sys, has_dom,
+                                       not (has_sys or has_dom), 'system',
+                                       'missing', 'r')
+                    if how == 'object':
+                        rule = _parser.parse_rule('@')
+                        rule.scope_types = list(types) if types else None
+                    else:
+                        rule = 'p'
+                    acc.ev()
+                    r = world.decide(enf, rule, {}, creds)
+                    exp = ref(types, has_sys, has_dom, True, True)
+                    want = ('ok', exp == 'allow')
+                    outs.append((r, want))
+                    if r != want:
+                        acc.violation(
+                            'sequence|%s|second-of-two|got=%s' % (how, r[1]),
+                            'second call on the same enforcer (scope types '
+                            '%r after %r, token %s): %r, expected %r' %
+                            (types, st, 'system' if has_sys else 'domain'
+                             if has_dom else 'project', r, want),
+                            {'first': st, 'second': types, 'how': how,
+                             'sys': has_sys, 'dom': has_dom}, want, r,
+                            'sequence')
+                acc.case('sequence', True)
+                acc.outcome('seq-%s' % how)
+    # (b) the option flips between two calls on the same enforcer
+    for first_on in (False, True):
+        conf2 = world.new_conf(w.root, enforce_scope=first_on, policy_dirs=[])
+        enf = P.Enforcer(conf2)
+        enf.register_default(P.RuleDefault(
+            'p', '@', scope_types=list(st) if st else None))
+        for has_sys, has_dom in ((True, False), (False, True), (False, False)):
+            for on in (first_on, not first_on, first_on):
+                conf2.set_override('enforce_scope', on, group='oslo_policy')
+                creds = make_creds('dict', has_sys, has_dom,
+                                   not (has_sys or has_dom), 'system_scope',
+                                   'missing', 'r')
+                acc.ev()
+                r = world.decide(enf, 'p', {}, creds)
+                exp = ref(st, has_sys, has_dom, on, True)
+                want = ('ok', exp == 'allow')
+                acc.case('sequence', True)
+                if r != want:
+                    acc.violation(
+                        'sequence|toggle|got=%s' % (r[1],),
+                        'after enforce_scope was switched to %s on the same '
+                        'enforcer: %r, expected %r (scope types %r)' %
+                        (on, r, want, st),
+                        {'scope_types': st, 'enforce_scope': on,
+                         'sys': has_sys, 'dom': has_dom}, want, r, 'sequence')
+                acc.outcome('toggle-%s' % on)
+    acc.sample('sequence', {'scope_types': st})
 
 
 def _rows(acc, P, enf, rule, how, st, enforce_scope, check_allows, override,
